@@ -341,6 +341,13 @@ func (x *Exec) runTop(fn *ssa.Function, c *Contract) {
 			}
 		}
 	}
+	// vacuity guard, cheap part: the preconditions (and capture facts) themselves are satisfiable.
+	// (cover:return below needs the whole function's assumptions and is often undecided within
+	// its small budget; a contradictory requires clause is caught here in any case)
+	if !x.discover && (len(c.Requires) > 0 || len(c.Captures) > 0) {
+		x.obls = append(x.obls, &Obligation{Name: x.fnKey + "#cover:requires", Kind: "cover", Fn: x.fnKey, Props: x.props,
+			Pos: x.em.Mark(), Goal: "true", Expect: "sat", em: x.em})
+	}
 	rc := &ReplayCtx{fn: fn, entry: fr.entry, x: x}
 	for _, p := range fn.Params {
 		rc.params = append(rc.params, fr.vals[p])
